@@ -16,7 +16,7 @@ pub fn run(args: &Args) -> i32 {
     _ => (Prop::C05, 0x0505u64),
   };
   let rule = match prop {
-    Prop::C01 => "random DATA/DATAFRAG/GAP/HEARTBEAT histories from 1-3 writers with drop/dup/reorder and interleaved read/take ops on 4 reader flavours; distinct = hash of the post-fault arrival sequence (kind,writer,sn,frag); non-trivial = history had >=1 loss-or-dup and >=1 reorder and handed over >=1 sample",
+    Prop::C01 => "random DATA/DATAFRAG/GAP/HEARTBEAT histories from 1-3 writers with drop/dup/reorder and interleaved read/take ops on 4 reader flavours; distinct = hash of the post-fault arrival sequence (kind,writer,sn,frag); non-trivial = history had >=1 loss-or-dup and >=1 reorder and handed over >=1 sample. Second leg (counters two_readers:*): two reliable DataReaders of one participant on one topic (one TopicCache, one MessageReceiver) matched with one writer, first transmissions to both or lost, repairs and GAPs addressed to one reader (or, in a third of the histories, everything addressed to both), second reader optionally joining late as TransientLocal or Volatile, fault-free suffix; each reader on its own must obey order / once / no-holes / complete",
     Prop::C03 => "same histories; every captured ACKNACK/NACKFRAG is decoded by an independent walker and judged against a set-logic shadow of what was injected; distinct = arrival-sequence hash; non-trivial = >=1 ACKNACK observed after >=1 fault",
     Prop::C05 => "reader leg: same histories, fragments from the harness's own fragmenter (1-3 per submessage, fragment sizes 8-64, permuted/duplicated/interleaved across samples and writers); writer+reader leg: real Writer fragmenting (sizes 64/100/256/1024) over a faulty link into the real Reader; distinct = arrival-sequence hash (reader leg) / event+fault hash (link leg); non-trivial = >=1 fragmented sample delivered after reordering, duplication or loss",
   };
@@ -32,14 +32,12 @@ pub fn run(args: &Args) -> i32 {
   };
   let big_every = if args.thorough() { 40 } else { 200 };
   let seed = args.seed;
-  let replay_case: Option<u64> = args.replay.as_ref().and_then(|p| {
-    let s = std::fs::read_to_string(p).ok()?;
-    let v: serde_json::Value = serde_json::from_str(&s).ok()?;
-    v["replay"]["case"]["index"].as_u64()
-  });
+  let replay_doc: Option<serde_json::Value> = args.replay.as_ref().and_then(|p| std::fs::read_to_string(p).ok()).and_then(|s| serde_json::from_str(&s).ok());
+  let replay_case: Option<u64> = replay_doc.as_ref().and_then(|v| v["replay"]["case"]["index"].as_u64());
+  let replay_leg: Option<String> = replay_doc.as_ref().and_then(|v| v["replay"]["case"]["leg"].as_str().map(|s| s.to_string()));
   let acc = par_cases(args.threads(), ncases, |i, acc| {
     if let Some(rc) = replay_case {
-      if i != rc {
+      if i != rc || replay_leg.is_some() {
         return;
       }
     }
@@ -71,6 +69,35 @@ pub fn run(args: &Args) -> i32 {
     }
   });
   let mut acc = acc;
+  if prop == Prop::C01 {
+    // leg "two local readers": two reliable DataReaders of one participant on one topic (shared TopicCache),
+    // independent loss / repair / GAP per reader; each reader on its own must obey C01 (see sib.rs)
+    let n = args.scale(20_000, 1_000_000);
+    let sib_acc = par_cases(args.threads(), n, |i, acc| {
+      // a replay file of this leg names it; the main leg's replays do not run here and vice versa
+      if replay_case.map_or(false, |rc| rc != i || replay_leg.as_deref() != Some("two-local-readers")) {
+        return;
+      }
+      let mut rng = Rng::derive(seed, 0x0111, i);
+      let case = crate::sib::gen_case(&mut rng);
+      let tag = json!({"seed": seed, "stream": 0x0111, "index": i, "leg": "two-local-readers"});
+      let out = crate::sib::run_case(&case, acc, &tag);
+      acc.evaluations += 1;
+      acc.count("two_readers:samples_handed_over", out.handed);
+      acc.count("two_readers:histories", 1);
+      if case.second_joins_at > 0 {
+        acc.count("two_readers:histories_with_a_late_second_reader", 1);
+      }
+      if out.nontrivial {
+        acc.distinct.insert(out.sig ^ 0x5151);
+      }
+      if i < 1 {
+        acc.sample(json!({"case": tag, "history": crate::sib::case_json(&case)}), 3);
+      }
+    });
+    acc.merge(sib_acc);
+    rep.require("two_readers:samples_handed_over", 1000);
+  }
   if prop == Prop::C05 {
     // writer+reader leg: the real Writer fragments, a faulty link permutes/duplicates/drops,
     // the real Reader reassembles; DATAFRAGs are checked byte for byte against the
